@@ -966,7 +966,7 @@ class StatesManagerNext(FunctionContract):
 
         def inv(L, g):
             start = g["start"]
-            return And(L.xx >= start, ForAllInts("k", start, L.xx, lambda k: self.out(self.proj(k))))
+            return And(L.xx >= start, L.self.fields["_last_logged_index"] == g["logged0"], ForAllInts("k", start, L.xx, lambda k: self.out(self.proj(k))))
         self.loops = {0: LoopSpec(inv, decreases=lambda L: L.self.fields["max_frontier_indices"] - L.xx + 1)}
 
     def out(self, s):
@@ -983,13 +983,15 @@ class StatesManagerNext(FunctionContract):
         interp.hooks[P + "StatesManager._sample_frontier_state_increment"] = lambda it, f, b: ctx_fresh("frontier")
 
     def setup(self, vc, case):
-        mx, last = vc.int("max_frontier_index"), vc.int("last_projected_index")
-        o = vc.obj(P + "StatesManager", max_frontier_indices=mx, _last_projected_index=last,
+        mx, last, logged = vc.int("max_frontier_index"), vc.int("last_projected_index"), vc.int("last_logged_index")
+        o = vc.obj(P + "StatesManager", max_frontier_indices=mx, _last_projected_index=last, _last_logged_index=logged,
                    pairing=vc.obj(P + "PairingToZd"))
         x, ml = vc.int("x"), vc.int("max_logged")
-        vc.assume(And(last >= -1, x >= 0, mx >= 0))
-        start = smax(x, If(x == ml, -1, last) + 1)
+        vc.assume(And(last >= -1, logged >= -1, logged <= last, x >= 0, mx >= 0))
+        # a caller that has logged the first `max_logged` states restarts behind the pairing index of the last logged one
+        start = smax(x, If(x == ml, logged, last) + 1)
         vc.ghost["start"] = start
+        vc.ghost["logged0"] = logged
         return dict(self=o, x=x, max_logged=ml)
 
     def ensures(self, result, self_=None, x=None, max_logged=None):
@@ -1003,7 +1005,9 @@ class StatesManagerNext(FunctionContract):
         state, exhausted = result
         r = self_.fields["_last_projected_index"]
         if exhausted is False:
-            return {"found:index-not-before-start": r >= start,
+            will_be_logged = Not(And(max_logged >= 0, max_logged <= x))
+            return {"found:logged-index-follows-the-states-the-caller-logs": self_.fields["_last_logged_index"] == If(will_be_logged, r, g["logged0"]),
+                    "found:index-not-before-start": r >= start,
                     "found:state-is-admissible": Not(self.out(state)),
                     "found:state-is-the-state-of-that-index": state == self.proj(r),
                     "found:no-admissible-index-skipped": ForAllInts("k", start, r, lambda k: self.out(self.proj(k)))}
